@@ -40,12 +40,20 @@ def gen(ctx):
     hs = ctx.read_ndjson(os.path.join(g.dir, "histories.ndjson"))
     hs.sort(key=lambda h: json.dumps(h, sort_keys=True))
     if ctx.quick():
-        # quick tier: a seeded sample of the single-op and race families, all loss/stale/random ones
+        # quick tier: every history whose first op is a simple op or an Execve in one of the core
+        # (sync mode, callback, cancel) settings is always run; the rest of the cross product, the race
+        # and loss families are sampled by seed
+        core = {(False, "ok", "none"), (True, "none", "none"), (False, "fail", "none"), (True, "fail", "none"),
+                (False, "ok", "running"), (True, "none", "pre")}
         keep = []
         for h in hs:
+            o = h["ops"][0]
             fam = "gate" if h["gate"] == "stale" else "race" if (h["gate"] or h["delays"]) else \
-                  "loss" if any(o["k"] in ("destroy", "killinit") for o in h["ops"]) else "plain"
-            p = {"gate": 0.5, "race": 0.35, "loss": 0.5, "plain": 0.4}[fam]
+                  "loss" if any(x["k"] in ("destroy", "killinit") for x in h["ops"]) else "plain"
+            if fam == "plain" and len(h["ops"]) == 4 and (o["k"] != "exec" or (o["sa"], o["cb"], o["cancel"]) in core):
+                keep.append(h)
+                continue
+            p = {"gate": 0.5, "race": 0.3, "loss": 0.5, "plain": 0.12}[fam]
             if ctx.rng.random() < p:
                 keep.append(h)
         hs = keep
